@@ -191,7 +191,11 @@ func samplingRules(c *Ctx) {
 			if !strings.Contains(site.pr.String(), "MAX_EFFECTIVE_BALANCE") {
 				continue
 			}
+			if s.found && !s.okShape {
+				break // an earlier test on MAX_EFFECTIVE_BALANCE is already not the spec's: report that one
+			}
 			s.found = true
+			s.okShape = false
 			s.pos = site.pos
 			// orient: the MAX_EFFECTIVE_BALANCE term negative
 			p, op, rop := site.pr, site.op, site.rop
@@ -225,6 +229,8 @@ func samplingRules(c *Ctx) {
 				s.why = "the candidate's balance is not weighed by MAX_RANDOM_BYTE (255): " + site.text
 			case p[maxTerm] != -1 || strings.Count(maxTerm, "*") != 1:
 				s.why = "MAX_EFFECTIVE_BALANCE is not multiplied by exactly the random byte: " + site.text
+			case !strings.HasPrefix(balTerm, "EffectiveBalance("):
+				s.why = "the balance weighed is " + balTerm + ", not the candidate's effective balance read from the state's registry (a cached copy is stale once effective balances were updated in the same epoch transition): " + site.text
 			case rop != 0 && rop != token.LSS:
 				s.why = "the candidate is accepted on the wrong side of the test: " + site.text
 			case rop == 0 && op != token.GEQ && op != token.LSS:
